@@ -65,12 +65,48 @@ class Work:
         self.close()
 
 
-def sh(cmd, timeout, cwd=None, input=None, env=None):
-    """run with a timeout; never hangs the check. returns (rc, stdout, stderr); rc = -999 on timeout"""
+def _rss_mb(pid):
+    try:
+        with open(f"/proc/{pid}/status") as f:
+            for ln in f:
+                if ln.startswith("VmRSS:"):
+                    return int(ln.split()[1]) // 1024
+    except OSError:
+        pass
+    return 0
+
+
+def sh(cmd, timeout, cwd=None, input=None, env=None, rss_limit_mb=None):
+    """run with a timeout; never hangs the check. returns (rc, stdout, stderr); rc = -999 on timeout.
+    rss_limit_mb: a watchdog kills the process when its resident memory passes the limit (a changed library that loops while
+    appending to a buffer must cost a crash report, not the machine); reported like a timeout, with `MEMORY` in stderr"""
     e = dict(os.environ)
     e.update(SAN_ENV)
     if env:
         e.update(env)
+    if rss_limit_mb:
+        import threading
+        p = subprocess.Popen(cmd, cwd=cwd, stdin=subprocess.PIPE if input is not None else None, stdout=subprocess.PIPE, stderr=subprocess.PIPE,
+                             text=True, errors="replace", env=e)
+        killed = {"why": None}
+        done = threading.Event()
+
+        def watch():
+            t0 = time.time()
+            while not done.wait(0.25):
+                if _rss_mb(p.pid) > rss_limit_mb:
+                    killed["why"] = "MEMORY"; p.kill(); return
+                if time.time() - t0 > timeout:
+                    killed["why"] = "TIMEOUT"; p.kill(); return
+        th = threading.Thread(target=watch, daemon=True)
+        th.start()
+        try:
+            so, se = p.communicate(input=input)
+        finally:
+            done.set()
+        if killed["why"]:
+            return -999, so or "", (se or "") + "\n" + killed["why"]
+        return p.returncode, so, se
     try:
         p = subprocess.run(cmd, cwd=cwd, input=input, capture_output=True, text=True, errors="replace", timeout=timeout, env=e)
         return p.returncode, p.stdout, p.stderr
@@ -123,7 +159,7 @@ def classify_death(rc, stderr):
     """map a harness death to a small enum"""
     s = stderr[-6000:]
     if rc == -999:
-        return "timeout"
+        return "memory-limit" if stderr.rstrip().endswith("MEMORY") else "timeout"
     if "AddressSanitizer" in s:
         m = re.search(r"AddressSanitizer: ([a-zA-Z\-]+)", s)
         return "asan:" + (m.group(1) if m else "?")
@@ -147,6 +183,7 @@ def classify_death(rc, stderr):
     return f"exit:{rc}"
 
 
+RSS_LIMIT_MB = 12000          # per harness process (the largest legitimate one, C03's synthetic field under ASan, stays below 2 GB)
 TIMEOUT_BUDGET = {"left": 6}     # per check run: a code change that makes the library hang must cost minutes, not hours
 
 
@@ -169,7 +206,7 @@ def run_lines(exe, lines, timeout_per_line=0.05, min_timeout=75, setup=None, env
         chunk = lines[pos:]
         inp = "\n".join(setup + chunk) + "\n"
         to = max(min_timeout, timeout_per_line * (len(chunk) + len(setup)))
-        rc, so, se = sh(cmd, to, input=inp, env=env)
+        rc, so, se = sh(cmd, to, input=inp, env=env, rss_limit_mb=RSS_LIMIT_MB)
         got = so.splitlines()
         got = got[len(setup):] if len(got) >= len(setup) else []
         if rc == 0 and len(got) == len(chunk):
@@ -182,14 +219,14 @@ def run_lines(exe, lines, timeout_per_line=0.05, min_timeout=75, setup=None, env
             cls = "short-output"
         else:
             cls = classify_death(rc, se)
-        if cls == "timeout":
+        if cls in ("timeout", "memory-limit"):
             TIMEOUT_BUDGET["left"] -= 1
         outs.extend(got[:n])
         outs.append("CRASH " + cls)
         crashes.append({"line": lines[pos + n][:2000], "class": cls, "stderr": se[-1500:]})
         pos += n + 1
         guard += 1
-        if guard > 60 or sum(1 for c in crashes if c["class"] == "timeout") >= 3:
+        if guard > 60 or sum(1 for c in crashes if c["class"] in ("timeout", "memory-limit")) >= 3:
             while len(outs) < len(lines):
                 outs.append("CRASH too-many-crashes")
             break
